@@ -191,7 +191,9 @@ public:
         // so f would be zero in exact arithmetics. But due to rounding errors,
         // it may contain tiny fluctuations. When this happens, we force f to be zero,
         // so that it can be restarted in the subsequent Arnoldi factorization
-        if (m_fac_f.cwiseAbs().maxCoeff() < m_eps * abs(m_fac_H(0, 0)))
+        // f is measured in the same (B-)norm as everything else: the entries of a
+        // B-normalized vector can be tiny or huge, depending on the scale of B
+        if (m_op.norm(m_fac_f) < m_eps * abs(m_fac_H(0, 0)))
         {
             m_fac_f.setZero();
             m_beta = RealScalar(0);
